@@ -243,11 +243,17 @@ def gen_class(rng, depth, *, naming=True, variant_tag=None, allow=None, simple=F
         if r() < 0.12:
             opts['kw_only'] = True
         if naming and r() < 0.3:
-            which = rng.choice(('rename', 'in_rename', 'out_rename', 'in_rename_multi'))
+            which = rng.choice(('rename', 'in_rename', 'out_rename', 'in_rename_multi', 'multi_in_and_out', 'in_and_out'))
             if which == 'rename': opts['rename'] = rng.choice(STYLES)
             elif which == 'in_rename': opts['in_rename'] = rng.choice(STYLES)
             elif which == 'out_rename': opts['out_rename'] = rng.choice(STYLES)
-            else: opts['in_rename'] = tuple(rng.sample(STYLES, 2))
+            elif which == 'in_rename_multi': opts['in_rename'] = tuple(rng.sample(STYLES, 2))
+            elif which == 'multi_in_and_out':
+                # several input styles, output in one of them that is NOT the first
+                ins = tuple(rng.sample(STYLES, rng.choice((2, 3))))
+                opts['in_rename'], opts['out_rename'] = ins, rng.choice(ins[1:])
+            else:
+                opts['in_rename'], opts['out_rename'] = rng.choice(STYLES), rng.choice(STYLES)
         if r() < 0.1:
             opts['frozen'] = False
     opts.update(force)
